@@ -511,6 +511,51 @@ pub fn c09_defaults<const N: usize>() {
     vf::check(tok::balanced(), 302);
 }
 
+pub static mut ZE_MADE: usize = 0;
+pub static mut ZE_DROPS: usize = 0;
+/// zero-sized, never equal to another one (so a container holds several), counts constructions and destructions
+pub struct Ze;
+impl Ze { fn new() -> Ze { unsafe { ZE_MADE += 1; } Ze } }
+impl PartialEq for Ze { #[inline(always)] fn eq(&self, _: &Ze) -> bool { false } }
+impl Drop for Ze { #[inline(never)] fn drop(&mut self) { unsafe { ZE_DROPS += 1; } } }
+#[inline(always)] fn ze_drops() -> usize { unsafe { ZE_DROPS } }
+
+/// Zero-sized elements WITH a destructor through every path that destroys elements: all slots share one address, a pointer range
+/// over them is empty and `size_of` is 0, but each element must still be destroyed exactly once.
+/// W: 0 drop the map, 1 clear, 2 into_iter, 3 drain, 4 retain, 5 into_keys, 6 into_values, 7 Set::into_iter, 8 Set::drain, 9 remove-by-retain + reuse
+pub fn c02_zst_drops<const N: usize, const W: u8>() {
+    unsafe { ZE_MADE = 0; ZE_DROPS = 0; }
+    let (n, j) = (vf::any_usize(), vf::any_usize());
+    vf::assume(n <= N && j <= n);
+    macro_rules! steps { ($it:expr) => {{ let mut i = 0; while i < N { if i < j { let x = $it.next(); vf::check(x.is_some(), 604); drop(x); vf::check(ze_drops() == i + 1, 614); } i += 1; } }}; }
+    if W == 7 || W == 8 {
+        let mut s: Set<Ze, N> = empty_set();
+        let mut i = 0;
+        while i < N { if i < n { vf::check(s.insert(Ze::new()), 100); } i += 1; }
+        vf::check(s.len() == n && ze_drops() == 0, 201);
+        if W == 7 { let mut it = s.into_iter(); steps!(it); vf::check(it.len() == n - j, 601); drop(it); }
+        else { { let mut d = s.drain(); steps!(d); vf::check(d.len() == n - j, 601); } vf::check(ze_drops() == n && s.is_empty(), 614); drop(s); }
+    } else {
+        let mut m: Map<Ze, (), N> = empty_map();
+        let mut i = 0;
+        while i < N { if i < n { vf::check(m.insert(Ze::new(), ()).is_none(), 100); } i += 1; }
+        vf::check(m.len() == n && ze_drops() == 0, 201);
+        match W {
+            0 => drop(m),
+            1 => { m.clear(); vf::check(ze_drops() == n && m.is_empty(), 614); drop(m); }
+            2 => { let mut it = m.into_iter(); steps!(it); vf::check(it.len() == n - j, 601); drop(it); }
+            3 => { { let mut d = m.drain(); steps!(d); vf::check(d.len() == n - j, 601); } vf::check(ze_drops() == n && m.is_empty(), 614); drop(m); }
+            4 => { let mut kept = 0usize; m.retain(|_, _| { let k = vf::any_bool(); if k { kept += 1; } k }); vf::check(m.len() == kept && ze_drops() == n - kept, 614); drop(m); }
+            5 => { let mut it = m.into_keys(); steps!(it); vf::check(it.len() == n - j, 601); drop(it); }
+            6 => { let mut it = m.into_values(); let mut i = 0; while i < N { if i < j { vf::check(it.next().is_some(), 604); vf::check(ze_drops() == i + 1, 614); } i += 1; } drop(it); }
+            _ => { m.retain(|_, _| false); vf::check(ze_drops() == n && m.is_empty(), 614);
+                   let mut i = 0; while i < N { vf::check(m.insert(Ze::new(), ()).is_none() && m.len() == i + 1, 613); i += 1; } drop(m); }
+        }
+    }
+    if n > 0 { vf::reach(1); } else { vf::reach(2); }
+    vf::check(unsafe { ZE_DROPS == ZE_MADE }, 302);
+}
+
 // ------------------------------------------------------------------------------------------ zero-sized elements
 /// zero-sized key and value (`Map<NE, (), N>`, `Set<NE, N>`, `NE` = a zero-sized key that is never equal to another):
 /// all slots share one address, so an iterator that finds its end by comparing pointers sees an empty range.
@@ -572,6 +617,7 @@ pub fn c10_zst<const N: usize, const W: u8>() {
 harnesses! {
     c09_zst: [1, 0] [1, 1] [1, 2] [1, 3] [1, 4] [1, 5] [2, 0] [2, 1] [2, 2] [2, 3] [2, 4] [2, 5];
     c10_zst: [1, 0] [1, 1] [1, 2] [1, 3] [1, 4] [1, 5] [2, 0] [2, 1] [2, 2] [2, 3] [2, 4] [2, 5];
+    c02_zst_drops: [1, 0] [1, 1] [1, 2] [1, 3] [1, 4] [1, 5] [1, 6] [1, 7] [1, 8] [1, 9] [2, 0] [2, 1] [2, 2] [2, 3] [2, 4] [2, 5] [2, 6] [2, 7] [2, 8] [2, 9];
     c09_iter: [0] [1] [2] [3];
     c09_keys: [0] [1] [2] [3];
     c09_values: [0] [1] [2] [3];
@@ -594,6 +640,7 @@ harnesses! {
     @deep
     c09_zst: [0, 0] [0, 1] [0, 2] [0, 3] [0, 4] [0, 5] [3, 0] [3, 1] [3, 2] [3, 3] [3, 4] [3, 5];
     c10_zst: [0, 0] [0, 1] [0, 2] [0, 3] [0, 4] [0, 5] [3, 0] [3, 1] [3, 2] [3, 3] [3, 4] [3, 5];
+    c02_zst_drops: [3, 0] [3, 1] [3, 2] [3, 3] [3, 4] [3, 5] [3, 6] [3, 7] [3, 8] [3, 9];
     c10_drain_methods: [4] [5];
     c10_set_drain_methods: [4] [5];
     c09_provided: [4];
